@@ -912,9 +912,16 @@ func (p *Proxy) unregisterConnection(player *connectedPlayer) (found bool) {
 	verifhook.Point("reg.unregister.enter")
 	p.muP.Lock()
 	verifhook.Point("reg.unregister.locked")
-	_, found = p.playerIDs[player.ID()]
-	delete(p.playerNames, strings.ToLower(player.Username()))
-	delete(p.playerIDs, player.ID())
+	// Only remove the entries that belong to this very connection: a rejected,
+	// denied or replaced login must not erase another player's registration.
+	if existing, ok := p.playerIDs[player.ID()]; ok && existing == player {
+		found = true
+		delete(p.playerIDs, player.ID())
+	}
+	lowerName := strings.ToLower(player.Username())
+	if existing, ok := p.playerNames[lowerName]; ok && existing == player {
+		delete(p.playerNames, lowerName)
+	}
 	verifhook.Event("reg.deleted", "found", found)
 	empty := len(p.playerIDs) == 0
 	p.muP.Unlock()
